@@ -120,10 +120,350 @@ Ltac nd_split :=
       let Ha := fresh "Nh" in let Hb := fresh "Nd" in
       apply NoDup_cons_inv in H; destruct H as [Ha Hb]
   end.
+Ltac in_norm :=
+  repeat (cbn [In] in *;
+          match goal with
+          | H : context [In _ (_ ++ _)] |- _ => rewrite in_app_iff in H
+          | |- context [In _ (_ ++ _)] => rewrite in_app_iff
+          end);
+  cbn [In] in *.
 Ltac notin s :=
   repeat match goal with Hd : forall x, In x _ -> In x _ -> False |- _ => specialize (Hd s) end;
-  repeat match goal with
-  | H : context [In _ (_ ++ _)] |- _ => rewrite in_app_iff in H
-  | |- context [In _ (_ ++ _)] => rewrite in_app_iff
-  end;
-  cbn [In] in *; tauto.
+  in_norm; tauto.
+Ltac in_tac := in_norm; tauto.
+
+Lemma flat_map_cons {A B} (f : A -> list B) x l : flat_map f (x :: l) = f x ++ flat_map f l.
+Proof. reflexivity. Qed.
+
+Section Repl.
+Variable s : nid.
+Variable fs : stmt -> stmt.
+Variable fc : conc -> conc.
+Variable fe : expr -> expr.
+
+Definition is_s (i : pinfo) : bool := pi_id i =? s.
+
+Lemma find_is_s_in l i : find is_s l = Some i -> In i l /\ pi_id i = s.
+Proof. intros H. apply find_some in H. destruct H as [H1 H2]. split; [exact H1|]. apply N.eqb_eq. exact H2. Qed.
+
+(* ------------------------------------------------------------------------------------------ *)
+(* (C) sub_X x = x when s is no node id of x                                                    *)
+(* ------------------------------------------------------------------------------------------ *)
+Lemma map_id_flat {A} (f : A -> A) (ids : A -> list nid) (l : list A) :
+  (forall x, ~ In s (ids x) -> f x = x) -> ~ In s (flat_map ids l) -> map f l = l.
+Proof.
+  intros Hf. induction l as [|x r IH]; intros Hn; [reflexivity|].
+  rewrite flat_map_cons in Hn. cbn [map]. rewrite Hf, IH; [reflexivity| |]; in_tac.
+Qed.
+
+Lemma stmt_nid_in x : In (stmt_nid x) (nids_stmt x).
+Proof.
+  destruct x; cbn [stmt_nid nids_stmt]; try (left; reflexivity).
+  apply in_or_app. left. destruct f; cbn; tauto.
+Qed.
+Lemma stmt_nid_neq x : ~ In s (nids_stmt x) -> (stmt_nid x =? s) = false.
+Proof. intros H. apply N.eqb_neq. intro Hc. apply H. rewrite <- Hc. apply stmt_nid_in. Qed.
+Lemma sub_stmt_unfold x : sub_stmt s fs x =
+  if stmt_nid x =? s then fs x else
+  match x with
+  | SIf i c th el => SIf i c (sub_stmts s fs th) (sub_stmts s fs el)
+  | SCase i sel alts oth => SCase i sel (sub_calts s fs alts) (sub_stmts s fs oth)
+  | SFor i v lo hi b => SFor i v lo hi (sub_stmts s fs b)
+  | SWhile i c b => SWhile i c (sub_stmts s fs b)
+  | _ => x
+  end.
+Proof. destruct x; reflexivity. Qed.
+
+Lemma sub_stmts_cons x r : sub_stmts s fs (SCons x r) = SCons (sub_stmt s fs x) (sub_stmts s fs r).
+Proof. reflexivity. Qed.
+Lemma sub_calts_cons cs b r : sub_calts s fs (CACons cs b r) = CACons cs (sub_stmts s fs b) (sub_calts s fs r).
+Proof. reflexivity. Qed.
+
+Lemma sub_stmt_id :
+  (forall x, ~ In s (nids_stmt x) -> sub_stmt s fs x = x) /\
+  (forall x, ~ In s (nids_stmts x) -> sub_stmts s fs x = x) /\
+  (forall x, ~ In s (nids_calts x) -> sub_calts s fs x = x).
+Proof.
+  apply stmt_stmts_calts_ind.
+  - intros i t e Hn. rewrite sub_stmt_unfold, (stmt_nid_neq _ Hn). reflexivity.
+  - intros i t e Hn. rewrite sub_stmt_unfold, (stmt_nid_neq _ Hn). reflexivity.
+  - intros i c th IHth el IHel Hn. rewrite sub_stmt_unfold, (stmt_nid_neq _ Hn).
+    cbn [nids_stmt] in Hn. rewrite IHth, IHel; [reflexivity| |]; in_tac.
+  - intros i sel alts IHa oth IHo Hn. rewrite sub_stmt_unfold, (stmt_nid_neq _ Hn).
+    cbn [nids_stmt] in Hn. rewrite IHa, IHo; [reflexivity| |]; in_tac.
+  - intros i v lo hi b IHb Hn. rewrite sub_stmt_unfold, (stmt_nid_neq _ Hn).
+    cbn [nids_stmt] in Hn. rewrite IHb; [reflexivity|]; in_tac.
+  - intros i c b IHb Hn. rewrite sub_stmt_unfold, (stmt_nid_neq _ Hn).
+    cbn [nids_stmt] in Hn. rewrite IHb; [reflexivity|]; in_tac.
+  - intros f a Hn. rewrite sub_stmt_unfold, (stmt_nid_neq _ Hn). reflexivity.
+  - intros i e Hn. rewrite sub_stmt_unfold, (stmt_nid_neq _ Hn). reflexivity.
+  - intros i Hn. rewrite sub_stmt_unfold, (stmt_nid_neq _ Hn). reflexivity.
+  - intros _. reflexivity.
+  - intros x IHx r IHr Hn. cbn [nids_stmts] in Hn. rewrite sub_stmts_cons, IHx, IHr; [reflexivity| |]; in_tac.
+  - intros _. reflexivity.
+  - intros cs b IHb r IHr Hn. cbn [nids_calts] in Hn. rewrite sub_calts_cons, IHb, IHr; [reflexivity| |]; in_tac.
+Qed.
+Definition sub_stmts_id := proj1 (proj2 sub_stmt_id).
+
+Lemma sub_oinit_id o e : o_nid o <> s -> sub_oinit s fe o e = e.
+Proof. intros H. apply N.eqb_neq in H. unfold sub_oinit. rewrite H. destruct e; reflexivity. Qed.
+Lemma sub_ldecl_id d : ~ In s (nids_ldecl d) -> sub_ldecl s fe d = d.
+Proof.
+  destruct d as [o t i|o t i]; cbn [nids_ldecl nids_occ sub_ldecl]; intros Hn.
+  - rewrite sub_oinit_id; [reflexivity|]. intro Hc. apply Hn. left. exact Hc.
+  - assert (E : (o_nid o =? s) = false) by (apply N.eqb_neq; intro Hc; apply Hn; left; exact Hc).
+    rewrite E. reflexivity.
+Qed.
+Lemma sub_ldecls_id ls : ~ In s (flat_map nids_ldecl ls) -> map (sub_ldecl s fe) ls = ls.
+Proof. apply map_id_flat. exact sub_ldecl_id. Qed.
+Lemma sub_iface_id i : ~ In s (nids_iface i) -> sub_iface s fe i = i.
+Proof.
+  destruct i as [o m t d]; unfold sub_iface, nids_iface; cbn [i_occ i_mode i_ty i_def nids_occ]; intros Hn.
+  rewrite sub_oinit_id; [reflexivity|]. intro Hc. apply Hn. left. exact Hc.
+Qed.
+Lemma sub_ifaces_id l : ~ In s (flat_map nids_iface l) -> map (sub_iface s fe) l = l.
+Proof. apply map_id_flat. exact sub_iface_id. Qed.
+Lemma sub_decl_id d : ~ In s (nids_decl d) -> sub_decl s fs fe d = d.
+Proof.
+  destruct d; cbn [nids_decl nids_occ sub_decl]; intros Hn; try reflexivity.
+  - rewrite sub_oinit_id; [reflexivity|]. intro Hc. apply Hn. left. exact Hc.
+  - rewrite sub_oinit_id; [reflexivity|]. intro Hc. apply Hn. left. exact Hc.
+  - rewrite sub_ldecls_id, sub_stmts_id; [reflexivity| |]; in_tac.
+  - rewrite sub_ldecls_id, sub_stmts_id; [reflexivity| |]; in_tac.
+  - rewrite !sub_ifaces_id; [reflexivity| |]; in_tac.
+Qed.
+Lemma sub_decls_id ds : ~ In s (flat_map nids_decl ds) -> map (sub_decl s fs fe) ds = ds.
+Proof. apply map_id_flat. exact sub_decl_id. Qed.
+
+Lemma conc_nid_in c : In (conc_nid c) (nids_conc c).
+Proof. destruct c; cbn [conc_nid nids_conc nids_occ app]; left; reflexivity. Qed.
+Lemma conc_nid_neq c : ~ In s (nids_conc c) -> (conc_nid c =? s) = false.
+Proof. intros H. apply N.eqb_neq. intro Hc. apply H. rewrite <- Hc. apply conc_nid_in. Qed.
+Lemma sub_conc_unfold c : sub_conc s fs fc fe c =
+  if conc_nid c =? s then fc c else
+  match c with
+  | CProc l sens ls b => CProc l sens (map (sub_ldecl s fe) ls) (sub_stmts s fs b)
+  | CBlock l ds b => CBlock l (map (sub_decl s fs fe) ds) (sub_concs s fs fc fe b)
+  | _ => c
+  end.
+Proof. destruct c; reflexivity. Qed.
+Lemma sub_concs_cons x r : sub_concs s fs fc fe (CCons x r) = CCons (sub_conc s fs fc fe x) (sub_concs s fs fc fe r).
+Proof. reflexivity. Qed.
+Lemma sub_conc_id :
+  (forall c, ~ In s (nids_conc c) -> sub_conc s fs fc fe c = c) /\
+  (forall c, ~ In s (nids_concs c) -> sub_concs s fs fc fe c = c).
+Proof.
+  apply conc_concs_ind.
+  - intros l sens ls b Hn. rewrite sub_conc_unfold, (conc_nid_neq _ Hn). cbn [nids_conc] in Hn.
+    rewrite sub_ldecls_id, sub_stmts_id; [reflexivity| |]; in_tac.
+  - intros l t e Hn. rewrite sub_conc_unfold, (conc_nid_neq _ Hn). reflexivity.
+  - intros l ds b IHb Hn. rewrite sub_conc_unfold, (conc_nid_neq _ Hn). cbn [nids_conc] in Hn.
+    rewrite sub_decls_id, IHb; [reflexivity| |]; in_tac.
+  - intros l lb e a gm pm Hn. rewrite sub_conc_unfold, (conc_nid_neq _ Hn). reflexivity.
+  - intros l c gm pm Hn. rewrite sub_conc_unfold, (conc_nid_neq _ Hn). reflexivity.
+  - intros _. reflexivity.
+  - intros x IHx r IHr Hn. cbn [nids_concs] in Hn. rewrite sub_concs_cons, IHx, IHr; [reflexivity| |]; in_tac.
+Qed.
+Definition sub_concs_id := proj2 sub_conc_id.
+
+Lemma sub_dunit_id u : ~ In s (nids_dunit u) -> sub_dunit s fs fc fe u = u.
+Proof.
+  destruct u as [ctx b]. unfold sub_dunit, nids_dunit. cbn [u_ctx u_body]. intros Hn. f_equal.
+  destruct b; cbn [nids_ubody sub_ubody] in *; try reflexivity.
+  - rewrite sub_decls_id; [reflexivity|]; in_tac.
+  - rewrite sub_decls_id; [reflexivity|]; in_tac.
+  - rewrite !sub_ifaces_id; [reflexivity| |]; in_tac.
+  - rewrite sub_decls_id, sub_concs_id; [reflexivity| |]; in_tac.
+  - rewrite sub_ifaces_id, sub_decls_id; [reflexivity| |]; in_tac.
+Qed.
+Lemma sub_dunits_id us : ~ In s (flat_map nids_dunit us) -> map (sub_dunit s fs fc fe) us = us.
+Proof. apply map_id_flat. exact sub_dunit_id. Qed.
+Lemma sub_library_id l : ~ In s (nids_library l) -> Lib (l_name l) (map (sub_dunit s fs fc fe) (l_units l)) = l.
+Proof. destruct l as [n us]. unfold nids_library. cbn [l_name l_units]. intros Hn. rewrite sub_dunits_id; [reflexivity|exact Hn]. Qed.
+Lemma sub_program_id p : ~ In s (nids_program p) -> sub_program s fs fc fe p = p.
+Proof. unfold sub_program, nids_program. apply (map_id_flat (fun l => Lib (l_name l) (map (sub_dunit s fs fc fe) (l_units l)))). exact sub_library_id. Qed.
+
+(* ------------------------------------------------------------------------------------------ *)
+(* (I) the ids of the phrases of x are node ids of x                                            *)
+(* ------------------------------------------------------------------------------------------ *)
+Section WithGE.
+Variable md : mode.
+Variable GE : genv.
+
+Definition stmt_inner (G : env) (x : stmt) : list pinfo :=
+  match x with
+  | SIf _ _ th el => walk_stmts GE G th ++ walk_stmts GE G el
+  | SCase _ _ alts oth => walk_calts GE G alts ++ walk_stmts GE G oth
+  | SFor _ v _ _ b => ok_env (declare (push G) v (BObj KConst MNone SInt)) (fun G' => walk_stmts GE G' b)
+  | SWhile _ _ b => walk_stmts GE G b
+  | _ => []
+  end.
+Lemma walk_stmt_unfold G x : walk_stmt GE G x = PInfo (stmt_nid x) GE G (PStmt x) :: stmt_inner G x.
+Proof. destruct x; reflexivity. Qed.
+Lemma walk_stmts_cons G x r : walk_stmts GE G (SCons x r) = walk_stmt GE G x ++ walk_stmts GE G r.
+Proof. reflexivity. Qed.
+Lemma walk_calts_cons G cs b r : walk_calts GE G (CACons cs b r) = walk_stmts GE G b ++ walk_calts GE G r.
+Proof. reflexivity. Qed.
+
+Ltac stmt_head H j :=
+  rewrite walk_stmt_unfold in H; destruct H as [H|H]; [subst j; apply stmt_nid_in|]; cbn [stmt_inner] in H.
+
+Lemma walk_stmt_ids :
+  (forall x G i, In i (walk_stmt GE G x) -> In (pi_id i) (nids_stmt x)) /\
+  (forall x G i, In i (walk_stmts GE G x) -> In (pi_id i) (nids_stmts x)) /\
+  (forall x G i, In i (walk_calts GE G x) -> In (pi_id i) (nids_calts x)).
+Proof.
+  apply stmt_stmts_calts_ind.
+  - intros i t e G j H. stmt_head H j. destruct H.
+  - intros i t e G j H. stmt_head H j. destruct H.
+  - intros i c th IHth el IHel G j H. stmt_head H j.
+    apply in_app_or in H. destruct H as [H|H]; [apply IHth in H|apply IHel in H]; cbn [nids_stmt]; in_tac.
+  - intros i sel alts IHa oth IHo G j H. stmt_head H j.
+    apply in_app_or in H. destruct H as [H|H]; [apply IHa in H|apply IHo in H]; cbn [nids_stmt]; in_tac.
+  - intros i v lo hi b IHb G j H. stmt_head H j.
+    destruct (declare (push G) v (BObj KConst MNone SInt)) as [G'|n c]; cbn [ok_env] in H; [|destruct H].
+    apply IHb in H. cbn [nids_stmt]. in_tac.
+  - intros i c b IHb G j H. stmt_head H j. apply IHb in H. cbn [nids_stmt]. in_tac.
+  - intros f a G j H. stmt_head H j. destruct H.
+  - intros i e G j H. stmt_head H j. destruct H.
+  - intros i G j H. stmt_head H j. destruct H.
+  - intros G j H. destruct H.
+  - intros x IHx r IHr G j H. rewrite walk_stmts_cons in H.
+    apply in_app_or in H. destruct H as [H|H]; [apply IHx in H|apply IHr in H]; cbn [nids_stmts]; in_tac.
+  - intros G j H. destruct H.
+  - intros cs b IHb r IHr G j H. rewrite walk_calts_cons in H.
+    apply in_app_or in H. destruct H as [H|H]; [apply IHb in H|apply IHr in H]; cbn [nids_calts]; in_tac.
+Qed.
+Definition walk_stmts_ids := proj1 (proj2 walk_stmt_ids).
+
+Lemma init_info_in G o t e i : In i (init_info GE G o t e) -> pi_id i = o_nid o.
+Proof. destruct e; cbn [init_info In]; intros H; [|destruct H]. destruct H as [H|[]]. subst i. reflexivity. Qed.
+Lemma walk_ldecl_ids G d i : In i (walk_ldecl GE G d) -> In (pi_id i) (nids_ldecl d).
+Proof.
+  destruct d; cbn [walk_ldecl nids_ldecl nids_occ]; intros H; apply init_info_in in H; rewrite H; left; reflexivity.
+Qed.
+Lemma walk_ldecls_ids ds : forall G k i,
+  In i (walk_ldecls md GE G ds k) -> In (pi_id i) (flat_map nids_ldecl ds) \/ exists G', In i (k G').
+Proof.
+  induction ds as [|d r IH]; intros G k i H; cbn [walk_ldecls] in H.
+  - right. exists G. exact H.
+  - rewrite flat_map_cons. apply in_app_or in H. destruct H as [H|H].
+    + apply walk_ldecl_ids in H. left. in_tac.
+    + destruct (check_ldecl md GE G d) as [G1|n c]; cbn [ok_env] in H; [|destruct H].
+      apply IH in H. destruct H as [H|H]; [left; in_tac|right; exact H].
+Qed.
+Lemma walk_ifaces_ids c l : forall G k i,
+  In i (walk_ifaces md GE c G l k) -> In (pi_id i) (flat_map nids_iface l) \/ exists G', In i (k G').
+Proof.
+  induction l as [|d r IH]; intros G k i H; cbn [walk_ifaces] in H.
+  - right. exists G. exact H.
+  - rewrite flat_map_cons. apply in_app_or in H. destruct H as [H|H].
+    + apply init_info_in in H. left. unfold nids_iface, nids_occ. rewrite H. in_tac.
+    + destruct (declare_ifaces md GE c G [d]) as [G1|n c0]; cbn [ok_env] in H; [|destruct H].
+      apply IH in H. destruct H as [H|H]; [left; in_tac|right; exact H].
+Qed.
+Lemma walk_sub_body_ids G ps ret ls b i :
+  In i (walk_sub_body md GE G ps ret ls b) -> In (pi_id i) (flat_map nids_ldecl ls ++ nids_stmts b).
+Proof.
+  unfold walk_sub_body. destruct (declare_params GE _ ps) as [G1|n c]; cbn [ok_env]; intros H; [|destruct H].
+  apply walk_ldecls_ids in H. destruct H as [H|[G' H]]; [|apply walk_stmts_ids in H]; in_tac.
+Qed.
+Lemma walk_decl_ids G G' d i : In i (walk_decl md GE G G' d) -> In (pi_id i) (nids_decl d).
+Proof.
+  destruct d; cbn [walk_decl nids_decl nids_occ]; intros H; try (destruct H; fail).
+  - apply init_info_in in H. rewrite H. left. reflexivity.
+  - apply init_info_in in H. rewrite H. left. reflexivity.
+  - apply walk_sub_body_ids in H. in_tac.
+  - apply walk_sub_body_ids in H. in_tac.
+  - apply walk_ifaces_ids in H. destruct H as [H|[Gg H]]; [in_tac|].
+    apply walk_ifaces_ids in H. destruct H as [H|[Gp H]]; [in_tac|destruct H].
+Qed.
+Lemma walk_decls_ids rg obl ds : forall G k i,
+  In i (walk_decls md GE rg obl G ds k) -> In (pi_id i) (flat_map nids_decl ds) \/ exists G', In i (k G').
+Proof.
+  induction ds as [|d r IH]; intros G k i H; cbn [walk_decls] in H.
+  - right. exists G. exact H.
+  - rewrite flat_map_cons.
+    destruct (check_decl md GE rg obl G d) as [G1|n c]; cbn [ok_env] in H; [|destruct H].
+    apply in_app_or in H. destruct H as [H|H].
+    + apply walk_decl_ids in H. left. in_tac.
+    + apply IH in H. destruct H as [H|H]; [left; in_tac|right; exact H].
+Qed.
+
+Definition conc_inner (G : env) (c : conc) : list pinfo :=
+  match c with
+  | CProc _ _ ls b => walk_ldecls md GE (push G) ls (fun G' => walk_stmts GE G' b)
+  | CBlock _ ds b => walk_decls md GE RArch [] (push G) ds (fun G' => walk_concs md GE G' b)
+  | _ => []
+  end.
+Lemma walk_conc_unfold G c : walk_conc md GE G c = PInfo (conc_nid c) GE G (PConc c) :: conc_inner G c.
+Proof. destruct c; reflexivity. Qed.
+Lemma walk_concs_cons G x r : walk_concs md GE G (CCons x r) = walk_conc md GE G x ++ walk_concs md GE G r.
+Proof. reflexivity. Qed.
+
+Ltac conc_head H j :=
+  rewrite walk_conc_unfold in H; destruct H as [H|H]; [subst j; apply conc_nid_in|]; cbn [conc_inner] in H.
+Lemma walk_conc_ids :
+  (forall c G i, In i (walk_conc md GE G c) -> In (pi_id i) (nids_conc c)) /\
+  (forall c G i, In i (walk_concs md GE G c) -> In (pi_id i) (nids_concs c)).
+Proof.
+  apply conc_concs_ind.
+  - intros l sens ls b G j H. conc_head H j. cbn [nids_conc].
+    apply walk_ldecls_ids in H. destruct H as [H|[G' H]]; [|apply walk_stmts_ids in H]; in_tac.
+  - intros l t e G j H. conc_head H j. destruct H.
+  - intros l ds b IHb G j H. conc_head H j. cbn [nids_conc].
+    apply walk_decls_ids in H. destruct H as [H|[G' H]]; [|apply IHb in H]; in_tac.
+  - intros l lb e a gm pm G j H. conc_head H j. destruct H.
+  - intros l c gm pm G j H. conc_head H j. destruct H.
+  - intros G j H. destruct H.
+  - intros x IHx r IHr G j H. rewrite walk_concs_cons in H.
+    apply in_app_or in H. destruct H as [H|H]; [apply IHx in H|apply IHr in H]; cbn [nids_concs]; in_tac.
+Qed.
+Definition walk_concs_ids := proj2 walk_conc_ids.
+
+End WithGE.
+
+Lemma walk_unit_ids md GE LIBS lib uid u i :
+  In i (walk_unit md GE LIBS lib uid u) -> In (pi_id i) (nids_dunit u).
+Proof.
+  unfold walk_unit, nids_dunit. destruct u as [ctx b]. cbn [u_ctx u_body].
+  destruct b; cbn [nids_ubody]; intros H; try (destruct H; fail).
+  - destruct (check_ctx GE LIBS (env0 uid) ctx) as [G0|n c]; cbn [ok_env] in H; [|destruct H].
+    apply walk_decls_ids in H. destruct H as [H|[G' H]]; [in_tac|destruct H].
+  - destruct (find_unit GE lib (o_id o)) as [[ex inner obl|? ? ?|?| |?|gs ex inner obl|?| ]|]; try (destruct H; fail).
+    + destruct (check_ctx GE LIBS _ ctx) as [G0|n c]; cbn [ok_env] in H; [|destruct H].
+      apply walk_decls_ids in H. destruct H as [H|[G' H]]; [in_tac|destruct H].
+    + destruct (check_ctx GE LIBS _ ctx) as [G0|n c]; cbn [ok_env] in H; [|destruct H].
+      apply walk_decls_ids in H. destruct H as [H|[G' H]]; [in_tac|destruct H].
+  - destruct (check_ctx GE LIBS (env0 uid) ctx) as [G0|n c]; cbn [ok_env] in H; [|destruct H].
+    apply walk_ifaces_ids in H. destruct H as [H|[Gg H]]; [in_tac|].
+    apply walk_ifaces_ids in H. destruct H as [H|[Gp H]]; [in_tac|destruct H].
+  - destruct (find_unit GE lib (o_id ent)) as [[| ? ? inner | | | | | | ]|]; try (destruct H; fail).
+    destruct (check_ctx GE LIBS _ ctx) as [G0|n c]; cbn [ok_env] in H; [|destruct H].
+    apply walk_decls_ids in H. destruct H as [H|[G' H]]; [in_tac|].
+    apply walk_concs_ids in H. in_tac.
+  - destruct (check_ctx GE LIBS (env0 uid) ctx) as [G0|n c]; cbn [ok_env] in H; [|destruct H].
+    apply walk_ifaces_ids in H. destruct H as [H|[Gg H]]; [in_tac|].
+    apply walk_decls_ids in H. destruct H as [H|[G' H]]; [in_tac|destruct H].
+Qed.
+Lemma walk_units_ids md LIBS lib us : forall GE uid k i,
+  In i (walk_units md GE LIBS lib uid us k) ->
+  In (pi_id i) (flat_map nids_dunit us) \/ exists GE' uid', In i (k GE' uid').
+Proof.
+  induction us as [|u r IH]; intros GE uid k i H; cbn [walk_units] in H.
+  - right. exists GE, uid. exact H.
+  - rewrite flat_map_cons. apply in_app_or in H. destruct H as [H|H].
+    + apply walk_unit_ids in H. left. in_tac.
+    + destruct (check_unit md GE LIBS lib uid u) as [g|n c]; [|destruct H].
+      apply IH in H. destruct H as [H|H]; [left; in_tac|right; exact H].
+Qed.
+Lemma walk_libs_ids md LIBS ls : forall GE uid i,
+  In i (walk_libs md GE LIBS uid ls) -> In (pi_id i) (flat_map nids_library ls).
+Proof.
+  induction ls as [|l r IH]; intros GE uid i H; cbn [walk_libs] in H; [destruct H|].
+  rewrite flat_map_cons. apply walk_units_ids in H. destruct H as [H|[GE' [uid' H]]].
+  - unfold nids_library at 1. in_tac.
+  - apply IH in H. in_tac.
+Qed.
+
+End Repl.
